@@ -11,6 +11,11 @@ type Function struct {
 	ParList
 	Body BlockStat
 	Name string
+
+	// BareReturn is true if the body ends with a return statement without
+	// values.  That tells it apart from a body with no return statement, which
+	// is given an empty one.
+	BareReturn bool
 }
 
 var _ ExpNode = Function{}
@@ -18,13 +23,15 @@ var _ ExpNode = Function{}
 // NewFunction returns a Function instance built from the given arguments.
 func NewFunction(startTok, endTok *token.Token, parList ParList, body BlockStat) Function {
 	// Make sure we return at the end of the function
+	bareReturn := body.Return != nil && len(body.Return) == 0
 	if body.Return == nil {
 		body.Return = []ExpNode{}
 	}
 	return Function{
-		Location: LocFromTokens(startTok, endTok),
-		ParList:  parList,
-		Body:     body,
+		Location:   LocFromTokens(startTok, endTok),
+		ParList:    parList,
+		Body:       body,
+		BareReturn: bareReturn,
 	}
 }
 
